@@ -30,6 +30,11 @@ def shards(tier):
                     if hist == 3 and label == "op":
                         out.append(dict(base, op="transfer", sgeo=sg, dgeo=dg, same=same, k=2, steps=1, partition_by="auto", washes=[1], ncand=2, auto_split=False))
                 out.append(dict(base, op="distribute", sgeo="t3x2", dgeo="p2x2", k=1, steps=1))
+                if hist == 1 and label == "op":
+                    # labware as built by the public constructor from float arrays: the "initial" entry must be a snapshot too
+                    # (1x2 plates: the constructor forks on the sign of every initial volume)
+                    out.append(dict(base, op="transfer", sgeo="p1x2", dgeo="p1x2", k=1, steps=1, partition_by="auto", washes=[1], ctor_init=True, wl_max=common.BIG * 2))
+                    out.append(dict(base, op="aspirate", sgeo="p1x2", dgeo="p1x2", k=1, steps=1, ctor_init=True))
                 if hist == 3 and label == "op":
                     # two distinct labware objects that carry the same name (replicate plates): still two participating labware
                     out.append(dict(base, op="transfer", sgeo="p2x2", dgeo="p2x2", k=1, steps=2, partition_by="auto", washes=[1], same_name=True))
@@ -39,6 +44,9 @@ def shards(tier):
                     out.append(dict(base, op="transfer", sgeo="p2x2", dgeo="t3x2", k=2, steps=1, partition_by="auto", washes=[1], ncand=2, allow_reject=True))
                 out.append(dict(base, op="distribute", sgeo="t3x2", dgeo="t3x2", same=True, k=1, steps=1, dsels=[[3], [3, 4]]))
     return out
+
+
+common.GEO.setdefault("p1x2", ("plate", 1, 2))
 
 
 def weight(p):
@@ -64,6 +72,9 @@ def scenario(ctx, p):
     np = ctx.np
     W.hist0 = {}
     for name, lab in W.labs.items():
+        if p.get("ctor_init"):
+            W.hist0[name] = (list(lab._history), [e.copy() for e in lab._history], list(lab._labels))
+            continue
         entries = []
         for i in range(p["hist"] - 1):
             arr = lab.volumes
